@@ -58,14 +58,15 @@ CHECKS['C01'] = dict(
     rule='seeded histories of append/prepend/insert/remove/ownsHandle/empty/forEach/forEachIf/invoke/eventutil helpers over live, stale, '
          'empty and repeated handles and EQUAL callbacks added more than once, 9 configurations (4 prototypes, 6 policies, CallbackList and dispatcher lists), each step compared with '
          'the sequential model + structural walk + ledger; user code that runs INSIDE an operation (the callback copy constructor inside insert) may remove the referenced callback; the histories '
-         'in which operations are issued from inside invocations (C02 programs, g++ and clang++ builds) and the histories that take the list across a wrap of its generation counter (C19 programs) are run as well, since they are list histories too; a case is non-trivial when it contains >=1 successful remove and '
+         'in which operations are issued from inside invocations (C02 programs, g++ and clang++ builds) and the histories that take the list across a wrap of its generation counter (C19 programs) are run as well, since they are list histories too; the placement rules (append at the back, prepend at the front, insert before the referenced callback or at the back) are also checked when the calls come from several threads (the CallbackList target of the C03 concurrent histories: the final order must be that of some sequential execution); a case is non-trivial when it contains >=1 successful remove and '
          '>=1 invocation; distinct = distinct hash of the full operation/result trace',
     jobs=JS('drv_cblist', 'asan', 'c01', 4000, 150000, M4, shards=4) + JS('drv_cblist', 'plain', 'c01', 8000, 300000, M4, seed_offset=1, shards=4)
          + JS('drv_cblist', 'plain', 'c02', 8000, 100000, M4, seed_offset=2, shards=4)
          + JS('drv_cblist', 'clang-asan', 'c01', 4000, 100000, M4, seed_offset=3, shards=4)
          + JS('drv_cblist', 'plain', 'c19', 8000, 100000, M4, seed_offset=4, shards=4)
-         + JS('drv_cblist', 'clang-asan', 'c02', 4000, 60000, M4, seed_offset=5, shards=4),
-    assumptions=['model M-list (DESIGN §4) is the specification', 'single-threaded histories; concurrency is C03'],
+         + JS('drv_cblist', 'clang-asan', 'c02', 4000, 60000, M4, seed_offset=5, shards=4)
+         + [J('drv_cblist_mt', 'plain', '', 4000, 80000, opts={'cfg': '0'}, seed_offset=6, shards=8, shards_thorough=16, label='order-mt')],
+    assumptions=['model M-list (DESIGN §4) is the specification', 'single-threaded histories; schedules are C03 (one concurrent job is borrowed from it for the placement rules)'],
     technique='differential runtime monitor: generated histories vs sequential reference model, structural-invariant walker, instance ledger, ASan+UBSan',
     level_text='Exploration: thousands (quick) to hundreds of thousands (thorough) of seeded operation histories over 8 policy/prototype configurations are executed on the real headers; '
                'every return value, every callback call with its arguments, every enumeration and the linked structure itself are compared with a sequential model after each step. '
